@@ -203,6 +203,11 @@ def _denote(e, env, leaves):
         va = denote(a, env, leaves)
         vi = denote(idx, env, leaves)[()]
         return _select([_raw(va[j]) for j in range(va.shape[0])], vi)
+    if tag == "getitem_at":
+        _, a, idx, off = e
+        va = denote(a, env, leaves)
+        vi = denote(idx, env, leaves)[()]
+        return _select([_raw(np.take(va, j, axis=off)) for j in range(va.shape[off])], vi)
     if tag == "getslice":
         _, a, index = e
         return denote(a, env, leaves)[index]
